@@ -283,7 +283,7 @@ impl Engine for DecodeSim {
     fn runs(&self, tier: Tier) -> u64 {
         match (self.mode, tier) {
             (Mode::C06, Tier::Quick) => 1_000_000,
-            (Mode::C06, Tier::Thorough) => 6_000_000,
+            (Mode::C06, Tier::Thorough) => 20_000_000,
             (Mode::C08, Tier::Quick) => 80_000,
             (Mode::C08, Tier::Thorough) => 1_500_000,
         }
